@@ -82,6 +82,9 @@ pub mod amt {
     pub fn simple() -> Amt {
         Amt::F(1.5f64.to_bits())
     }
+    pub fn from_milli(v: i64) -> Amt {
+        Amt::F((v as f64 / 1000.0).to_bits())
+    }
     pub fn is_negative(a: AmountT) -> bool {
         a < 0.0
     }
@@ -140,6 +143,9 @@ pub mod amt {
     }
     pub fn simple() -> Amt {
         Amt::D(15, 1)
+    }
+    pub fn from_milli(v: i64) -> Amt {
+        Amt::D(v, 3)
     }
     pub fn is_negative(a: AmountT) -> bool {
         a < Decimal::ZERO
